@@ -48,8 +48,10 @@ func padblock(buf []byte, n int) []byte {
 	if missing <= 0 {
 		return buf
 	}
-	if missing == 1 {
-		return append(buf, 0x80) // 0x80 = 10000000b
-	}
-	return append(append(buf, 0x80), make([]byte, missing-1)...)
+	// Pad a copy: appending to buf would write into the caller's backing array
+	// when it has spare capacity.
+	ret := make([]byte, n)
+	copy(ret, buf)
+	ret[len(buf)] = 0x80 // 0x80 = 10000000b
+	return ret
 }
